@@ -614,6 +614,72 @@ def rule_note_walk(ctx, R="C14/note-walk"):
     ctx.floor(R, "callers of find_build_id_note", n, 2)
 
 
+def rule_text_fold(ctx, R="C14/text-fold"):
+    """`the defined XOR-fold`: byte i of every 16-byte chunk of the hashed text is XORed into byte i of a 16-byte accumulator that starts
+    at zero.  Decided on the idiom the code uses (std semantics of chunks/fold/zip are trusted): build_id_from_bytes is
+    `data.chunks(16).fold(vec![0u8; 16], f)`, f pairs the accumulator's bytes with the chunk's bytes position by position
+    (`iter_mut().zip(iter())`, a short last chunk pairs with the first bytes) and hands the accumulator back, and the innermost
+    closure is `*acc_byte ^= *chunk_byte`.  Any other way of folding is reported as a shape to review, not decided."""
+    from engine.summ import return_origins
+    fn = MR + "::build_id_from_bytes"
+    b = ctx.body(R, fn)
+    if b is None:
+        return
+    outs = [strip(e) for e in (return_origins(ctx.prog, fn) or [])]
+    ok = len(outs) == 1 and outs[0][0] == "call" and outs[0][1] == "std::iter::Iterator::fold" and len(outs[0][2]) == 3
+    if ok:
+        it, init, f = (strip(x) for x in outs[0][2])
+        ok = it[0] == "call" and it[1].endswith("::chunks") and strip(it[2][0]) == ("param", 1) and core(it[2][1]) == ("const", 16, "usize") \
+            and init[0] == "call" and init[1] == "std::vec::from_elem" and core(init[2][0]) == ("const", 0, "u8") and core(init[2][1]) == ("const", 16, "usize") and f[0] == "closure"
+    if not ok:
+        ctx.unproven(R, "fold", b.where(0), "build_id_from_bytes is not `data.chunks(16).fold(vec![0u8; 16], ..)`: a re-implemented fold has to be reviewed (which accumulator byte does a trailing partial chunk/word go to?)")
+        return
+    ctx.ok(R, "fold", b.where(0), "build_id_from_bytes folds the 16-byte chunks of its argument into a zeroed 16-byte accumulator")
+    cl = ctx.prog.closures_of(b)
+    outer = [c for c in cl if c.short.endswith("build_id_from_bytes::{closure#0}")]
+    inner = list(ctx.prog.closures_of(outer[0])) if len(outer) == 1 else []
+    if len(cl) != 1 or len(outer) != 1 or len(inner) != 1 or list(ctx.prog.closures_of(inner[0])):
+        ctx.unproven(R, "step", b.where(0), "the fold step is not the reviewed pair of closures (%d + %d closure bodies)" % (len(cl), len(inner)))
+        return
+    c = outer[0]
+    co = Origin(c)
+    fe = [(x, co.call_args(x)) for x, t in c.calls(lambda cc: cc.short == "std::iter::Iterator::for_each")]
+    okz = len(fe) == 1
+    if okz:
+        z = strip(fe[0][1][0])
+        okz = z[0] == "call" and z[1] == "std::iter::Iterator::zip" and len(z[2]) == 2
+        if okz:
+            l, r = strip(z[2][0]), strip(z[2][1])
+            okz = l[0] == "call" and l[1].endswith("::iter_mut") and strip(l[2][0]) == ("param", 2) and r[0] == "call" and r[1].endswith("::iter") and strip(r[2][0]) == ("param", 3)
+    rets = [strip(e) for e in (return_origins(ctx.prog, c.short) or [])]
+    others = [CalleeView(t["callee"]).short for x, t in c.calls() if (CalleeView(t["callee"]).short or "").split("::")[-1] not in ("deref_mut", "deref", "iter_mut", "iter", "zip", "for_each", "into_iter")]
+    ctx.check(okz and rets == [("param", 2)] and not others, R, "step", c.where(0), "each step pairs accumulator byte i with chunk byte i and returns the accumulator",
+              "the fold step is not `acc.iter_mut().zip(chunk.iter()).for_each(..); acc` (%s)" % (others or [show(e)[:60] for e in rets]))
+    ic = inner[0]
+    io = Origin(ic)
+    xors, stores = [], 0
+    for bi, blk in enumerate(ic.blocks):
+        for si, st in enumerate(blk["stmts"]):
+            if st["k"] != "assign" or not st["p"]["proj"] or st["p"]["proj"][0]["k"] != "deref":
+                continue
+            stores += 1
+            r = st["r"]
+            if r["k"] == "binop" and r["op"] == "BitXor":
+                tgt = strip(io.operand({"k": "copy", "p": {"l": st["p"]["l"], "proj": [], "ty": ""}}, (bi, si)))
+                xors.append((tgt, strip(io._rvalue(r, (bi, si), 0))))
+
+    def _is(e, n):
+        e = strip(e)
+        while e[0] in ("deref", "ref") and len(e) > 1:
+            e = strip(e[1])
+        return e == ("field", ("param", 2), n)
+    okx = len(xors) == 1 and stores == 1 and not list(ic.calls())
+    if okx:
+        tgt, v = xors[0]
+        okx = _is(tgt, "0") and v[0] == "bin" and ((_is(v[2], "0") and _is(v[3], "1")) or (_is(v[2], "1") and _is(v[3], "0")))
+    ctx.check(okx, R, "xor", ic.where(0), "the paired bytes are combined as `*acc ^= *chunk` and nothing else is stored", "the innermost closure is not `*a ^= *b` on the zipped pair")
+
+
 def rule_process_read_verbatim(ctx, R="C14/module-read-verbatim"):
     """every decoder above it assumes that ProcessMemory::read(offset, length) returns the bytes [offset, offset+length) of the module or
     an error: the Process arm asks the reader for exactly (start_address + offset, length) and the Slice arm takes exactly
@@ -653,6 +719,7 @@ def run(ctx):
     rule_process_read_verbatim(ctx)
     rule_header_context(ctx)
     rule_note_walk(ctx)
+    rule_text_fold(ctx)
     rule_dynamic_entries(ctx)
     rule_strtab_window(ctx)
     from rules import preds
